@@ -256,7 +256,7 @@ pub(crate) mod __verif_k {
         let mut vm = VM::new();
         let c0 = arb_imm().0;
         let c1 = crate::object::Object::float(1.5, &mut GC::new());
-        let c2 = arb_imm().0;
+        let c2 = <Object as crate::object::FromString<&str>>::string("ab", &mut GC::new());
         unsafe { CALLS = 1; PRE_H = 0; PRE_NFRAMES = 0; ADOPTED = 0; UNTRACED = 0; }
         let r = vm.run(Bytecode { constants: vec![c0, c1, c2], instructions: vec![OpCode::Halt as u8] });
         assert!(r.is_ok());
